@@ -303,10 +303,21 @@ static cJSON_bool decode_array_index_from_pointer(const unsigned char * const po
         return 0;
     }
 
-    for (position = 0; (pointer[position] >= '0') && (pointer[0] <= '9'); position++)
+    for (position = 0; (pointer[position] >= '0') && (pointer[position] <= '9'); position++)
     {
-        parsed_index = (10 * parsed_index) + (size_t)(pointer[position] - '0');
+        const size_t digit = (size_t)(pointer[position] - '0');
+        if (parsed_index > ((((size_t)-1) - digit) / 10))
+        {
+            /* the index doesn't fit into a size_t */
+            return 0;
+        }
+        parsed_index = (10 * parsed_index) + digit;
+    }
 
+    if (position == 0)
+    {
+        /* an array index needs at least one digit */
+        return 0;
     }
 
     if ((pointer[position] != '\0') && (pointer[position] != '/'))
@@ -361,6 +372,12 @@ static cJSON *get_item_from_pointer(cJSON * const object, const char * pointer, 
         {
             pointer++;
         }
+    }
+
+    if ((current_element != NULL) && (pointer[0] != '\0'))
+    {
+        /* a JSON pointer is either empty or starts with '/' */
+        return NULL;
     }
 
     return current_element;
